@@ -21,10 +21,12 @@ LEVEL = "exploration"
 RULE = (
     "Hypothesis: ensembles R in 1..4, K in 1..2, C in 0..2, n in 1..3, P in 1..3; realization weights with zeros; 0-1 "
     "filters (sort/cvar) on objectives and/or constraints; variable/objective/constraint scaling transforms; "
-    "evaluation_info present or not; histories of 1-4 calculate() calls on one EnsembleEvaluator (functions on single "
-    "vectors or batches of 1-3, gradients after functions at the same point = split, gradients alone, both); evaluator "
+    "evaluation_info present or not; histories of 1-6 calculate() calls on one EnsembleEvaluator (functions on single "
+    "vectors or batches of 1-3, gradients after functions at the same point = split, gradients alone, both; a third of "
+    "the histories follow optimizer-like F,G,F,G.. patterns at moving points); evaluator "
     "variants: label-driven recording evaluator, two different garbage fillings of inactive entries, memoizing "
-    "evaluator that returns the same EvaluatorResult object / arrays for repeated requests. Oracle: trace predicate "
+    "evaluator that returns the same EvaluatorResult object / arrays for repeated requests, evaluator that returns "
+    "write-protected views of persistent buffers it refills on the next call; x handed in as a write-protected view. Oracle: trace predicate "
     "(needed label set each once, user-domain variables, reported value == transform(returned value at that label), "
     "inactive => weight 0, split: weight 0 => inactive), garbage metamorphic relation, deep-copy comparison of the "
     "evaluator's objects, immutability of delivered results. "
@@ -66,6 +68,45 @@ class Memo:
         result = self.inner(variables, context)
         self.cache[key] = (result, snapshot(result))
         return result
+
+
+class Persistent:
+    """Evaluator that keeps persistent bookkeeping buffers and hands out write-protected views of them."""
+
+    def __init__(self, inner: AffineEvaluator) -> None:  # noqa: D107
+        self.inner = inner
+        self.calls = inner.calls
+        k_n = inner.a_obj.shape[1]
+        c_n = 0 if inner.a_con is None else inner.a_con.shape[1]
+        self.obj = np.zeros((64, k_n))
+        self.con = np.zeros((64, c_n)) if c_n else None
+        self.tag = np.zeros(64)
+
+    def __call__(self, variables: np.ndarray, context: EvaluatorContext) -> EvaluatorResult:
+        res = self.inner(variables, context)
+        rows = variables.shape[0]
+        self.obj[:rows] = res.objectives
+        obj = self.obj[:rows]
+        obj.flags.writeable = False
+        con = None
+        if self.con is not None:
+            self.con[:rows] = res.constraints
+            con = self.con[:rows]
+            con.flags.writeable = False
+        info = {}
+        for key, value in res.evaluation_info.items():
+            self.tag[:rows] = value
+            info[key] = self.tag[:rows]
+            info[key].flags.writeable = False
+        result = EvaluatorResult(objectives=obj, constraints=con, evaluation_info=info)
+        self.inner.calls[-1]["returned"] = result
+        return result
+
+    def scribble(self) -> None:
+        self.obj[...] = -12345.0
+        if self.con is not None:
+            self.con[...] = -12345.0
+        self.tag[...] = -1.0
 
 
 def snapshot(result: EvaluatorResult) -> dict[str, Any]:
@@ -121,6 +162,8 @@ def build(case: dict[str, Any], garbage: float | None, memo: bool) -> tuple[EnOp
                               garbage=garbage, info=case["info"])
     if memo:
         ev = Memo(ev)
+    elif case.get("readonly"):
+        ev = Persistent(ev)
     design = np.array(case["design"], dtype=np.float64).reshape(r_n, p_n, n)
     manager = PluginManager()
     manager.add_plugin("sampler", "design", DesignSamplerPlugin([design, design * 0.5, -design]))
@@ -156,7 +199,7 @@ def run_history(case: dict[str, Any], garbage: float | None, memo: bool) -> dict
     configured = np.asarray(cfg.realizations.weights)
     outputs: list[Any] = []
     delivered: list[tuple[Any, Any]] = []
-    stats = {"inactive": 0, "repeats": 0, "aborted": False}
+    stats = {"inactive": 0, "repeats": 0, "aborted": False, "splits": 0}
     last_f: tuple[np.ndarray, Any] | None = None  # (x, function result) cached by the evaluator
 
     def to_user(v: np.ndarray) -> np.ndarray:
@@ -171,7 +214,11 @@ def run_history(case: dict[str, Any], garbage: float | None, memo: bool) -> dict
     for op in case["history"]:
         kind = op[0]
         ncalls = len(ev.calls)
-        x = np.array(op[1], dtype=np.float64)
+        x_base = np.array(op[1], dtype=np.float64)
+        x = x_base
+        if case.get("ro_x"):  # the caller hands in a write-protected view of a vector it keeps updating
+            x = x_base.view()
+            x.flags.writeable = False
         try:
             if kind == "F":
                 results = ens.calculate(x if x.shape[0] > 1 or not op[2] else x[0], compute_functions=True, compute_gradients=False)
@@ -254,6 +301,7 @@ def run_history(case: dict[str, Any], garbage: float | None, memo: bool) -> dict
         # ---- 3. activity flags
         if split:
             assert last_f is not None
+            stats["splits"] += 1
             ow, cw = last_f[1].realizations.objective_weights, last_f[1].realizations.constraint_weights
             w_obj = np.tile(configured, (k_n, 1)) if ow is None else np.asarray(ow)
             w_con = None if not c_n else (np.tile(configured, (c_n, 1)) if cw is None else np.asarray(cw))
@@ -320,14 +368,17 @@ def run_history(case: dict[str, Any], garbage: float | None, memo: bool) -> dict
             delivered.append((res, copy.deepcopy(res)))
         outputs.append([summarise(r) for r in results])
         # ---- 5b. the harness scribbles over everything it owns
-        returned.objectives[...] = -12345.0
-        if returned.constraints is not None:
-            returned.constraints[...] = -12345.0
-        for v in returned.evaluation_info.values():
-            v[...] = -1
+        if isinstance(ev, Persistent):
+            ev.scribble()
+        else:
+            returned.objectives[...] = -12345.0
+            if returned.constraints is not None:
+                returned.constraints[...] = -12345.0
+            for v in returned.evaluation_info.values():
+                v[...] = -1
         if isinstance(ev, Memo):
             ev.cache.clear()
-        x[...] = 99.0
+        x_base[...] = 99.0
         for res, saved in delivered:
             for (path, arr), (_, arr0) in zip(walk_arrays(res), walk_arrays(saved)):
                 check(bool(np.array_equal(arr, arr0, equal_nan=True)), "result-changed-later",
@@ -408,9 +459,12 @@ def hypothesis_shard(item: dict[str, Any]) -> Collector:
             filters.append({"method": fk, "options": opts})
         pts = [[draw(st.sampled_from([0.0, 0.5, -1.0, 2.0])) for _ in range(n)] for _ in range(3)]
         history = []
-        for _ in range(draw(st.integers(1, 4))):
-            kind = draw(st.sampled_from(["F", "F", "G", "B"]))
-            if kind == "F":
+        pattern = draw(st.sampled_from([None, None, "FGFG", "FGFGFG", "FGBFG"]))  # optimizer-like sequences at moving points
+        for step in range(len(pattern) if pattern else draw(st.integers(1, 4))):
+            kind = pattern[step] if pattern else draw(st.sampled_from(["F", "F", "G", "B"]))
+            if pattern and kind == "G":
+                history.append(["G", [history[-1][1][0]]])
+            elif kind == "F":
                 b_n = draw(st.integers(1, 3))
                 history.append(["F", [pts[draw(st.integers(0, 2))] for _ in range(b_n)], draw(st.booleans())])
             elif kind == "G" and history and history[-1][0] == "F" and draw(st.integers(0, 3)) > 0:
@@ -424,7 +478,8 @@ def hypothesis_shard(item: dict[str, Any]) -> Collector:
             "con_filt": [draw(st.integers(-1, 0)) for _ in range(c_n)] if c_n and draw(st.booleans()) else None,
             "slopes": [draw(num) for _ in range(r_n * (k_n + c_n) * n)], "offsets": [draw(num) for _ in range(r_n * (k_n + c_n))],
             "design": [draw(st.sampled_from([-1.0, 1.0, 0.5, 0.0])) for _ in range(r_n * p_n * n)],
-            "history": history, "memo": draw(st.booleans()), "info": draw(st.booleans()),
+            "history": history, "memo": draw(st.booleans()), "readonly": draw(st.booleans()), "ro_x": draw(st.booleans()),
+            "info": draw(st.booleans()),
             "transforms": tr, "vscale": [draw(st.sampled_from([0.5, 2.0, 4.0])) for _ in range(n)],
             "voff": [draw(st.sampled_from([0.0, 1.0])) for _ in range(n)],
             "oscale": [draw(st.sampled_from([2.0, 0.5])) for _ in range(k_n)],
@@ -439,7 +494,9 @@ def hypothesis_shard(item: dict[str, Any]) -> Collector:
             "inactive-entries" if stats["inactive"] else "all-active", "memo-repeat" if stats["repeats"] else "no-repeat",
             f"transforms={case['transforms'] or 'none'}", "filters" if case["filters"] else "no-filters",
             "zero-weights" if 0.0 in case["weights"] else "positive-weights", *(f"op={k}" for k in sorted(kinds)),
-            "aborted" if stats["aborted"] else "completed", "info" if case["info"] else "no-info"))
+            "aborted" if stats["aborted"] else "completed", "info" if case["info"] else "no-info",
+            "persistent-readonly-buffers" if case["readonly"] and not case["memo"] else "fresh-or-memo-arrays",
+            "readonly-x" if case["ro_x"] else "plain-x", f"splits={stats['splits']}" if stats["splits"] < 2 else "splits>=2"))  # noqa: PLR2004
 
     run_hypothesis(col, cases(), body, seed=item["seed"], max_examples=item["examples"])
     return col
